@@ -1361,3 +1361,154 @@ func ruleReadErrKept(c *Ctx) {
 		c.Undecided("READ-ERR-KEPT", "instance-count", token.NoPos, "no Read call found")
 	}
 }
+
+// ruleLineCountStep: see LINECOUNT-STEP.
+func ruleLineCountStep(c *Ctx) {
+	c.Rule("LINECOUNT-STEP", "lineCount's per-byte decision is the documented one: path-conditioning its loop body on the current byte, on whether a next byte exists and on the next byte, the counter is incremented exactly for LF, and for CR when there is no next byte or the next byte is not LF (LF, CR and CRLF count as one line ending each).")
+	p := c.P
+	fn := p.Func("lineCount")
+	if !c.NeedFunc("LINECOUNT-STEP", fn, "lineCount") {
+		return
+	}
+	text := ssa.Value(fn.Params[0])
+	loops := naturalLoops(fn)
+	if len(loops) != 1 {
+		c.Undecided("LINECOUNT-STEP", "lineCount:loop", fn.Pos(), "expected exactly one loop")
+		return
+	}
+	l := loops[0]
+	// current index: the index of the element load that is compared first; next = load at index+1
+	var cur, next *ssa.UnOp
+	var curIdx ssa.Value
+	for b := range l.body {
+		for _, in := range b.Instrs {
+			ld, ok := in.(*ssa.UnOp)
+			if !ok || ld.Op != token.MUL {
+				continue
+			}
+			ia, ok := ld.X.(*ssa.IndexAddr)
+			if !ok || ia.X != text {
+				continue
+			}
+			if ok2, _ := unitStrideOver(ia.Index, text); ok2 {
+				cur, curIdx = ld, ia.Index
+			}
+		}
+	}
+	if cur == nil {
+		c.Undecided("LINECOUNT-STEP", "lineCount:shape", fn.Pos(), "per-byte loop over the whole text not recognised")
+		return
+	}
+	isIdxPlus1 := func(v ssa.Value) bool {
+		bo, ok := v.(*ssa.BinOp)
+		if !ok || bo.Op != token.ADD || bo.X != curIdx {
+			return false
+		}
+		one, ok := constInt(bo.Y)
+		return ok && one == 1
+	}
+	for b := range l.body {
+		for _, in := range b.Instrs {
+			if ld, ok := in.(*ssa.UnOp); ok && ld.Op == token.MUL {
+				if ia, ok := ld.X.(*ssa.IndexAddr); ok && ia.X == text && isIdxPlus1(ia.Index) {
+					next = ld
+				}
+			}
+		}
+	}
+	// increments of the counter: BinOp ADD(phi at header, 1) feeding the header phi that is returned
+	incBlocks := map[*ssa.BasicBlock]bool{}
+	for b := range l.body {
+		for _, in := range b.Instrs {
+			if bo, ok := in.(*ssa.BinOp); ok && bo.Op == token.ADD {
+				if ph, ok := bo.X.(*ssa.Phi); ok && ph.Block() == l.header && ph != curIdx {
+					if one, ok := constInt(bo.Y); ok && one == 1 {
+						if bo != curIdx {
+							incBlocks[b] = true
+						}
+					}
+				}
+			}
+		}
+	}
+	if len(incBlocks) == 0 {
+		c.Undecided("LINECOUNT-STEP", "lineCount:increment", fn.Pos(), "counter increment not recognised")
+		return
+	}
+	bs := newBSET(p)
+	body := l.header.Succs[0]
+	var bad []string
+	n := 0
+	for _, bv := range []int64{'\n', '\r', 'x', ' '} {
+		for _, atEnd := range []int64{0, 1} {
+			for _, nv := range []int64{'\n', 'x', '\r'} {
+				if atEnd == 1 && nv != 'x' {
+					continue
+				}
+				n++
+				symVal := func(v ssa.Value) (int64, bool) {
+					if v == ssa.Value(cur) {
+						return bv, true
+					}
+					if next != nil && v == ssa.Value(next) {
+						return nv, true
+					}
+					// "a next byte exists" tests: (idx+1) cmp len(text)
+					if bo, ok := v.(*ssa.BinOp); ok {
+						if cl, ok := isBuiltinCall(bo.Y, "len"); ok && cl.Call.Args[0] == text && isIdxPlus1(bo.X) {
+							switch bo.Op {
+							case token.GEQ:
+								return atEnd, true
+							case token.LSS:
+								return 1 - atEnd, true
+							}
+						}
+					}
+					return 0, false
+				}
+				st := &evalState{e: bs, fn: fn, symVal: symVal, from: make([]int, len(fn.Blocks)), noLoopPhi: true}
+				for i := range st.from {
+					st.from[i] = -2
+				}
+				incs, undecided := false, false
+				seen := map[*ssa.BasicBlock]bool{}
+				var dfs func(b *ssa.BasicBlock)
+				dfs = func(b *ssa.BasicBlock) {
+					if b == l.header || seen[b] || !l.body[b] {
+						return
+					}
+					seen[b] = true
+					if incBlocks[b] {
+						incs = true
+					}
+					succs := b.Succs
+					if iff := blockIf(b); iff != nil {
+						st.why = ""
+						if v, ok := st.eval(iff.Cond); ok {
+							if v != 0 {
+								succs = b.Succs[:1]
+							} else {
+								succs = b.Succs[1:]
+							}
+						} else {
+							undecided = true
+						}
+					}
+					for _, s := range succs {
+						st.from[s.Index] = b.Index
+						dfs(s)
+					}
+				}
+				st.from[body.Index] = l.header.Index
+				dfs(body)
+				want := bv == '\n' || (bv == '\r' && (atEnd == 1 || nv != '\n'))
+				if undecided {
+					bad = append(bad, fmt.Sprintf("byte %q atEnd=%d next=%q: decision depends on something else", rune(bv), atEnd, rune(nv)))
+				} else if incs != want {
+					bad = append(bad, fmt.Sprintf("byte %q, next byte %s: counted=%v, documented=%v", rune(bv), map[int64]string{1: "absent", 0: fmt.Sprintf("%q", rune(nv))}[atEnd], incs, want))
+				}
+			}
+		}
+	}
+	c.Check(len(bad) == 0, "LINECOUNT-STEP", "lineCount", fn.Pos(), fmt.Sprintf("%d (byte, look-ahead) cases; deviations: %s", n, strings.Join(bad, "; ")))
+}
